@@ -392,9 +392,19 @@ where
         acc: &mut Vec<O>,
     ) -> IResult<'a, ()> {
         while input.location_offset() < end_pos {
-            let (i, out) = O::parse(None, input.clone())?;
-            acc.push(out);
-            input = i;
+            match O::parse(None, input.clone()) {
+                Ok((i, out)) => {
+                    acc.push(out);
+                    input = i;
+                }
+                // Like `many0`, give back the input from before the failed attempt.
+                // The failed parser may have consumed tokens (e.g. comments) already.
+                Err(nom::Err::Error(mut err)) => {
+                    err.input = input;
+                    return Err(nom::Err::Error(err));
+                }
+                Err(e) => return Err(e),
+            }
         }
         Ok((input, ()))
     }
